@@ -14,16 +14,16 @@ CONSTANTS CheckFormat, CheckCut, CheckLower, CheckSorted
 
 Rec == ndJsonDeserialize(IOEnv.TRACE)
 
-VARIABLES l, inserts
-vars == <<l, inserts>>
+VARIABLES l, inserts, dict
+vars == <<l, inserts, dict>>
 
-TraceInit == l = 1 /\ inserts = <<>>
+TraceInit == l = 1 /\ inserts = <<>> /\ dict = <<>>
 
 IsEvent(e) == l <= Len(Rec) /\ Rec[l].ev = e /\ l' = l + 1
 
-EvReset == IsEvent("Reset") /\ inserts' = <<>>
+EvReset == IsEvent("Reset") /\ inserts' = <<>> /\ dict' = <<>>
 
-EvDict == IsEvent("Dict") /\ StrictlyAscending(Rec[l].strs) /\ UNCHANGED inserts
+EvDict == IsEvent("Dict") /\ StrictlyAscending(Rec[l].strs) /\ dict' = Rec[l].strs /\ UNCHANGED inserts
 
 \* a writer was configured, fed `inserts` (dictionary ranks) in this order and finished
 EvWrote ==
@@ -35,6 +35,8 @@ EvWrote ==
             /\ Ascending(e.inserts)             \* these scenarios feed sorted input
             /\ e.ins = "ok" /\ e.fin = "ok"
        /\ CheckFormat => WellFormedV2(e.file, e.codec, e.k, e.levels, e.inserts)
+       /\ CheckFormat => \A i \in 1..NB(e.file) : RawOk(e.file.blocks[i], dict)
+       /\ dict' = dict
        /\ CheckCut =>
             /\ Root(e.file) # 0
             /\ TreeOk(e.file, Root(e.file), 0, e.levels)
@@ -52,11 +54,11 @@ EvInterop ==
        /\ e.len = Len(inserts)
        /\ e.fwd = [x \in 1..Len(inserts) |-> x]
        /\ e.bwd = [x \in 1..Len(inserts) |-> Len(inserts) - x + 1]
-    /\ UNCHANGED inserts
+    /\ UNCHANGED <<inserts, dict>>
 
 \* a chunk file written by the sorter itself (spilled run or merged chunks), captured from the
 \* instrumented chunk storage: same format, same cut rule, content not known in advance
-EvChunkRun == IsEvent("ChunkRun") /\ Rec[l].res = "ok" /\ UNCHANGED inserts
+EvChunkRun == IsEvent("ChunkRun") /\ Rec[l].res = "ok" /\ UNCHANGED <<inserts, dict>>
 EvChunk ==
     /\ IsEvent("Chunk")
     /\ LET e == Rec[l]
@@ -68,7 +70,8 @@ EvChunk ==
             /\ CutRule(e.file, B, e.k, e.levels)
             /\ CheckLower => EarlyCuts(e.file, B, e.k, e.levels) = {}
        /\ CheckSorted => BlocksAscending(e.file)
-    /\ UNCHANGED inserts
+       /\ CheckFormat => \A i \in 1..NB(e.file) : RawOk(e.file.blocks[i], dict)
+    /\ UNCHANGED <<inserts, dict>>
 
 TraceNext == EvReset \/ EvDict \/ EvWrote \/ EvInterop \/ EvChunkRun \/ EvChunk
 
